@@ -79,6 +79,13 @@ def rule_addskel(ctx, rep, rid):
         raise Broken("_cds_lfht_add: new value of the helping cmpxchg has an unrecognised shape: %s" % ir.expr_str(gnew))
     else:
         rep.ok(rid, "add.help-keeps-BUCKET", "helping unlink: predecessor->next := clear(next) | (BUCKET iff the replaced word had it)", [gc.inst.where()])
+    # helping unlinks only what is logically removed: the helping cmpxchg is reached only along `(next & REMOVED) != 0` of the word just loaded
+    rem = [(t.blk.id, s_) for t, s_, a in pat.branch_edges_on(f, lambda a: a[0] == "ne" and a[2] == ("c", 0) and a[1][0] == "bin" and a[1][1] == "and" and a[1][3] == ("c", B.REMOVED) and a[1][2][0] == "load")]
+    if not rem:
+        rep.bad(rid, "add.help-only-removed", "_cds_lfht_add never tests REMOVED on the successor word yet unlinks nodes from the chain", [gc.inst.where()])
+    else:
+        rep.must_take_edge(rid, "add.help-only-removed", f, [f.entry()], [gc.inst], rem, include_start=True,
+                           what="the helping unlink in _cds_lfht_add is attempted only on a node whose next word was seen with REMOVED (a live node is never unlinked by an insertion)")
     # the node's own next
     sts = [s for s in pat.stores(f, NEXT) if s.d["ap"]["base"] == ["a", 5]]
     pat.require(len(sts) == 2, "_cds_lfht_add: node->next stores")
